@@ -29,8 +29,7 @@ type source struct {
 	last   int
 	repeat bool        // queue empty: keep returning the last candidate (exhaustion burst)
 	rnd    *mrand.Rand // queue empty and !repeat: draw from 1..univ (free-running) ...
-	univ   int
-	fresh  *int64 // ... or, when rnd == nil, hand out never-colliding candidates
+	univ   int         // ... or, when rnd == nil, hand out never-colliding candidates
 	reads  int
 }
 
